@@ -173,4 +173,35 @@ def rule_c(ctx: Ctx) -> None:
                 'a loop over all children of the parent with no early exit.')
 
 
-RULES = [rule_a, rule_b, rule_c]
+def rule_d(ctx: Ctx) -> None:
+    """A validation error that is raised (to be reported by the caller) carries the instance it is about: the constructor is
+    XMLSchemaValidationError(validator, obj, reason); a two-argument construction passes the reason text as the object, so the error
+    has neither reason nor element and is located wherever the context element happens to point."""
+    rule = 'C19.d'
+    names = ('XMLSchemaValidationError', 'XMLSchemaDecodeError', 'XMLSchemaEncodeError')
+    n = 0
+    for f in ctx.idx.iter_functions('validators'):
+        if isinstance(f.node, ast.Lambda) or f.module.name.endswith('.exceptions'):
+            continue
+        for c in calls(f.node):
+            nm_ = text(c.func).split('.')[-1]
+            if nm_ not in names:
+                continue
+            n += 1
+            kw = {k.arg for k in c.keywords}
+            has_reason = len(c.args) >= 3 or 'reason' in kw or nm_ != 'XMLSchemaValidationError'
+            ok = has_reason and (len(c.args) >= 2 or 'obj' in kw)
+            ctx.ob(rule, f'{f.qualname.split(".", 2)[-1]}: `{text(c)[:60]}` passes (validator, obj, reason)', f.loc(c), ok,
+                   '' if ok else 'two positional arguments: the reason is taken as the invalid object; no reason, no element', key=f'{f.qualname}|ctor|{text(c)[:50]}')
+    ctx.floor(rule, 'constructions of validation errors in validators/', n, 40)
+    # inside check_dynamic_context (which receives the child element) every raise names that element
+    f = ctx.idx.func('xmlschema.validators.groups.XsdGroup.check_dynamic_context')
+    p = f.params[1]
+    for r in walk_no_nested(f.node):
+        if isinstance(r, ast.Raise) and isinstance(r.exc, ast.Call) and 'ValidationError' in text(r.exc.func):
+            ok = len(r.exc.args) >= 2 and text(r.exc.args[1]) == p
+            ctx.ob(rule, f'check_dynamic_context: the raised error is about the child element `{p}`', f.loc(r), ok, '', key=f'check_dynamic_context|raise|{text(r.exc.args[0]) if r.exc.args else ""}|{text(r.exc)[:40]}')
+    ctx.explain('C19.d: arity/argument check of every validation-error construction in validators/ (validator, obj, reason).')
+
+
+RULES = [rule_a, rule_b, rule_c, rule_d]
